@@ -381,7 +381,7 @@ def dtable(rep, model, tier):
                                            'detect_bursts_cycles', 'detect_bursts_amp'),
                          kinds={'compute_features_kwargs': kind} if kind else {})
             E.run(model, gf.qual, {'compute_features_kwargs': kw, 'axis': ('param', 'axis')}, ctx=ctx)
-            first = next((e for e in ctx.trace if e['kind'] in ('pkgcall',) or (e['kind'] == 'call' and e['name'].startswith('pool'))), None)
+            first = next((e for e in ctx.trace if (e['kind'] in ('pkgcall',) and not e.get('inlined')) or (e['kind'] == 'call' and e['name'].startswith('pool'))), None)
             ck = model.find('check_kwargs_shape')
             if first is None or not first['name'].endswith('check_kwargs_shape') or first['guard'] != T.TRUE:
                 rep.violation('DTABLE-WIRED', f'{g}[{label}]', gsite, expected='check_kwargs_shape is the first call, unconditional',
